@@ -419,6 +419,8 @@ func featTag(op string, f Feat) string {
 	case "Settle", "And", "Or", "Xor", "Not", "DivideBy":
 		add(f.Open, "open-subpath")
 		add(!f.Open && f.Spike, "spike")
+	case "Filling":
+		add(f.NSub >= 2, "multi-subpath")
 	case "Flatten", "Stroke", "Offset", "Dash", "SplitAt", "Clip", "XMonotone":
 		add(f.CurveLoop, "bezier-loop")
 		add(!f.CurveLoop && (f.QuadFlat || f.CubeFlat), "flat-bezier")
